@@ -166,6 +166,13 @@ func namesFromKey(parts sortref.SplitKey, aschema *AnalyzedSchema, operations ma
 		startIndex = len(baseNames) + 1
 	}
 
+	if len(baseNames) == 0 {
+		// a key in the paths section that no operation accounts for (e.g. the parameters of a path without any operation):
+		// name it after the key itself, like any other non-standard pointer
+		baseNames = [][]string{parts}
+		startIndex = len(baseNames) + 1
+	}
+
 	result := make([]string, 0, len(baseNames))
 	for _, segments := range baseNames {
 		nm := parts.BuildName(segments, startIndex, partAdder(aschema))
